@@ -46,11 +46,16 @@ def target_tests(draw, max_bad):
     npass = draw(st.integers(0, 3))
     tests = []
     for i in range(nbad):
-        k = draw(st.sampled_from(['fail', 'error', 'fail', 'error', 'error_both', 'uxsuccess', 'fail_teardown']))
+        k = draw(st.sampled_from(['fail', 'error', 'fail', 'error', 'error_both', 'uxsuccess', 'fail_teardown',
+                                  'subtests']))
         t = {'n': 'test_b%04d' % i, 'k': k}
+        if k == 'subtests':
+            # several failing subtests in one test: a report may announce more failures than tests
+            t['sub'] = draw(st.lists(st.sampled_from([['fail'], ['fail'], ['error'], ['pass']]), min_size=1, max_size=5))
+            t['exc'] = 'ValueError'
         if k in ('error', 'error_both', 'fail_teardown'):
             t['exc'] = 'ValueError'
-        nm = draw(test_names()) if i < 12 else None
+        nm = draw(test_names()) if (i < 12 and k != 'subtests') else None
         if nm is not None and not re.search('.', nm):
             nm = 'x' + nm       # (the default --test filter '.' only selects names with a non-newline character)
         if nm is not None:
@@ -97,7 +102,10 @@ def cases(draw, tier='quick', driver=None, big=False):
     for i in range(min(len(tests), 4)):
         for ph in ('setUp', 'body', 'tearDown'):
             places.append(at_test(i, ph))
-    nnoise = draw(st.integers(0, 4))
+    # (decided early: with a console that can only encode ASCII no other noise is generated, because header-shaped noise
+    # followed by non-ASCII text would make the parent print a non-ASCII "name" - an environment limitation, not C07)
+    want_ascii = draw(st.integers(0, 5)) == 0 and not any('str' in t for t in tests)
+    nnoise = 0 if want_ascii else draw(st.integers(0, 4))
     has_big = False
     for _ in range(nnoise):
         streams = draw(st.sampled_from([chan.CHANNEL, chan.CHANNEL, chan.STDOUT_SIDE, chan.CHANNEL + chan.STDOUT_SIDE]))
@@ -105,11 +113,11 @@ def cases(draw, tier='quick', driver=None, big=False):
         if act[1][3] > 3:
             has_big = True
         draw(st.sampled_from(places))(act)
-    if draw(st.integers(0, 9)) == 0:
+    if not want_ascii and draw(st.integers(0, 9)) == 0:
         unit, count = draw(chan.noise_units())
         at_import(['in_child', ['atexit_noise', 'fd2', unit, count], tgt])
     # ---- fault
-    fkind = draw(st.sampled_from(['none', 'none', 'die', 'die', 'cut', 'cut', 'cut', 'spawn']))
+    fkind = draw(st.sampled_from(['die', 'cut'] if want_ascii else ['none', 'none', 'die', 'die', 'cut', 'cut', 'cut', 'spawn']))
     fault = {'kind': fkind}
     if fkind == 'die':
         how = draw(st.sampled_from(chan.HOWS))
@@ -136,7 +144,7 @@ def cases(draw, tier='quick', driver=None, big=False):
     if 'child_stderr' not in spec:
         spec['child_stderr'] = {'layer': tgt}      # observe the report without touching it
     if driver is None:
-        driver = draw(st.sampled_from(['inproc', 'inproc', 'cli']))
+        driver = 'cli' if want_ascii else draw(st.sampled_from(['inproc', 'inproc', 'cli']))
     if fkind == 'spawn' and fault['way'] != 'executable':
         driver = 'inproc'
     if fkind == 'spawn' and mode == 'j2':
@@ -144,12 +152,24 @@ def cases(draw, tier='quick', driver=None, big=False):
         layers[0]['faults'] = {'tearDown': 'NIE'}
     if fkind == 'spawn' and fault['way'] == 'executable':
         tree['ch'][0]['tests'][1].setdefault('acts', {})['body'] = [['set_executable', '/nonexistent/ztv/python']]
+    ascii_console = False
+    if want_ascii and driver == 'cli' and fkind in ('die', 'cut'):
+        # a console that can only encode ASCII while the lost child wrote non-ASCII text to its stderr: printing the
+        # diagnostics may fail, recording the lost layer must not depend on it
+        ascii_console = True
+        at_import(['in_child', ['noise', 'fd2', 'd\xc3\xa9marrage du service: \xe2\x9c\x93\n', 1], tgt])
     return {'spec': spec, 'mode': mode, 'fault': fault, 'driver': driver, 'verbose': draw(st.sampled_from([1, 1, 2, 3])),
-            'big': has_big}
+            'big': has_big, 'repeat': draw(st.sampled_from([1, 1, 1, 1, 2, 3])), 'ascii_console': ascii_console}
+
+
+def _ran_ok(total, executed, repeat):
+    """under --repeat the tests figure may be the executed count or the per-iteration count (documented either way), and
+    each process chooses for itself: only the names are compared then"""
+    return repeat > 1 or total == executed
 
 
 def run_case(case, spec, timeout=120):
-    opts = {'verbose': case['verbose']}
+    opts = {'verbose': case['verbose'], 'repeat': case.get('repeat', 1)}
     if case['mode'] == 'j2':
         opts['j'] = 2
     elif case['mode'] == 'j1':
@@ -163,11 +183,12 @@ def run_case(case, spec, timeout=120):
         elif fault['kind'] == 'spawn' and fault['way'] == 'script':
             kw['script_parts'] = ['/nonexistent/ztv/no_such_script.py']
         return drive.run_inproc(spec, args, disk=True, **kw)
+    env = {'PYTHONIOENCODING': 'ascii'} if case.get('ascii_console') else None
     with drive.World(spec) as world:
-        run = world.run(args, timeout=timeout)
+        run = world.run(args, timeout=timeout, env=env)
         if run.timeout:
             # confirm: a hang must reproduce
-            run2 = world.run(args, timeout=timeout)
+            run2 = world.run(args, timeout=timeout, env=env)
             if not run2.timeout:
                 return run2
         return run
@@ -180,6 +201,10 @@ def oracle(case, spec, run):
     tfull = model.layer_fullname(spec, 1)
     pfull = model.layer_fullname(spec, 0)
     labels = [case['mode'], case['driver'], 'fault:' + fault['kind']]
+    if case.get('ascii_console'):
+        labels.append('ascii-only-console')
+    if case.get('repeat', 1) > 1:
+        labels.append('repeat')
     if run.timeout:
         return [('C07/hang', 'the parent did not terminate within the bound (twice)')], labels, False, None
     if case['driver'] == 'inproc':
@@ -200,7 +225,7 @@ def oracle(case, spec, run):
     base_ran = 0
     for c in others:     # the other layer of a -j2 run, or nothing
         if c.report is not None and c.died is None:
-            r, f, e = chan.names_of(w, c.tests)
+            r, f, e = chan.names_of(w, c.tests, c.subfails)
             base_ran += r
             base_f += f
             base_e += e
@@ -222,7 +247,7 @@ def oracle(case, spec, run):
         accept = [ERROR]
         labels.append('spawn:' + fault['way'])
     else:
-        full = chan.names_of(w, tgt.tests)
+        full = chan.names_of(w, tgt.tests, tgt.subfails)
         if tgt.complete and tgt.died is None:
             accept = [full]
             labels.append('complete')
@@ -256,7 +281,7 @@ def oracle(case, spec, run):
                 out.append(('partial-data-used', 'the subprocess for %s %s, yet the parent lists failures %s errors %s '
                             '(complete processes reported only %s / %s)' % (TARGET_LAYER, _what(fault, tgt), short(got_f),
                                                                             short(got_e), short(base_f), short(base_e))))
-            if p.total is not None and p.total[0] != base_ran:
+            if p.total is not None and not _ran_ok(p.total[0], base_ran, case.get('repeat', 1)):
                 out.append(('partial-count-used', 'the subprocess for %s %s, yet Total counts %d tests (complete '
                             'processes ran %d)' % (TARGET_LAYER, _what(fault, tgt), p.total[0], base_ran)))
         else:
@@ -268,7 +293,7 @@ def oracle(case, spec, run):
                 out.append(('failure-names', 'child failures %s, parent recorded %s' % (short(base_f + f), short(got_f))))
             if got_e != base_e + e:
                 out.append(('error-names', 'child errors %s, parent recorded %s' % (short(base_e + e), short(got_e))))
-            if p.total is not None and p.total[0] != base_ran + r:
+            if p.total is not None and not _ran_ok(p.total[0], base_ran + r, case.get('repeat', 1)):
                 out.append(('tests-run', 'processes ran %d tests, parent Total says %d' % (base_ran + r, p.total[0])))
         return out
 
